@@ -149,7 +149,44 @@ def rule_targets(ctx):
                       "the loop that applies patches does not start with both standard targets followed by the extra targets")
 
 
+def rule_cli_agreement(ctx):
+    """C20.d: split() assumes every dash option is followed by its value; the parser must not define an option that
+    takes none (writer/reader agreement between the two sites; the splitting algorithm itself is not decided)."""
+    prog = ctx.prog
+    if "cli" not in prog.modules or not prog.has_fn("cli", "split") or not prog.has_fn("cli", "arg_parser"):
+        return
+    m = prog.mod("cli")
+    sp = prog.fn("cli", "split")
+    ap = prog.fn("cli", "arg_parser")
+    # does split treat "-x" as "the next token is its value"?  (a flag variable set on startswith("-") and consumed by the next token)
+    assumes_value = any(isinstance(n, ast.Call) and isinstance(n.func, ast.Attribute) and n.func.attr == "startswith"
+                        and n.args and isinstance(n.args[0], ast.Constant) and n.args[0].value == "-" for n in ast.walk(sp)) and \
+        any(isinstance(n, ast.Assign) and isinstance(n.value, ast.Constant) and n.value.value is True for n in ast.walk(sp))
+    ctx.ob("C20.d", "split() treats every dash option as value-taking", assumes_value, m.loc(sp))
+    if not assumes_value:
+        return
+    opts = 0
+    for c in ast.walk(ap):
+        if isinstance(c, ast.Call) and isinstance(c.func, ast.Attribute) and c.func.attr == "add_argument":
+            names = [a.value for a in c.args if isinstance(a, ast.Constant) and isinstance(a.value, str)]
+            if not any(x.startswith("-") for x in names):
+                continue
+            opts += 1
+            kw = {k.arg: k.value for k in c.keywords if k.arg}
+            act = kw.get("action")
+            nargs = kw.get("nargs")
+            valueless = (isinstance(act, ast.Constant) and act.value in ("store_true", "store_false", "count", "store_const", "append_const", "version", "help")) or \
+                (isinstance(nargs, ast.Constant) and nargs.value in (0, "?", "*"))
+            ctx.ob("C20.d", f"option {names} takes exactly one value, as split() assumes", not valueless, m.loc(c))
+            if valueless:
+                ctx.violation("C20.d", "cli", "arg_parser", f"option {'/'.join(names)} takes no value", m.loc(c),
+                              f"the option {'/'.join(names)} takes no value, but split() assumes every dash option is followed by its value: "
+                              f"`fakesnow {names[0]} script.py a b` takes script.py for the option's value and hands the target the wrong arguments")
+    ctx.floor("fakesnow command line options", opts, 2)
+
+
 RULES = [
+    ("C20.d", rule_cli_agreement, ("quick", "thorough")),
     ("C20.a", rule_release, ("quick", "thorough")),
     ("C20.c", rule_targets, ("quick", "thorough")),
 ]
